@@ -48,6 +48,8 @@ func rulesC15(c *Ctx) {
 	// the witness a proof was spent with is reported by the state check: the nullable column is carried into the row
 	// and read on the side where it is valid
 	c.scannedLocalsReachResult("R5", "GetProofsUsed", "GetPendingProofs", "GetPendingProofsByQuote")
+	R.Rule("R10", "state check and restore answer from the tables as they are now: neither endpoint is served from the mint's response cache (shared with C20.R4; a cached answer hides what was spent or signed since)", 10)
+	c.runAs("R4", "R10", func(cc *Ctx) { cc.c20Cache() })
 }
 
 // c15PendingToSpentKeepsFields: R7. When a pending melt is settled later (poll / state check), the proofs that go
